@@ -11,7 +11,8 @@ MODE_ARGV = {"plain": [], "merge": ["--merge"], "sort": ["--sort-by=."], "select
 def base_record(kind, policy="ignore", mode="plain", only_obj=False, files=None, stdin=b"", valid=True):
     m = mode if mode in ("plain", "merge", "ctx") else ("merge" if mode in ("sort", "group") else "plain")
     return {"kind": kind, "valid": valid, "policy": policy, "mode": m, "onlyObj": only_obj, "files": [list(f) for f in (files or [])], "stdin": list(stdin),
-            "rfault": dict(NORF), "wfault": -1, "exact": mode in ("plain", "merge") and policy != "stdout"}
+            "rfault": dict(NORF), "wfault": -1, "exact": mode in ("plain", "merge") and policy != "stdout",
+            "_blobs": [bytes(stdin)] + [bytes(f) for f in (files or [])]}
 
 
 def argv_for(policy, mode, only_obj, extra=None):
